@@ -71,6 +71,8 @@ type HeldView struct {
 type World struct {
 	Dir                                           string
 	PcapDir, IndexDir, SnapDir, StateDir, ConvDir string
+	// ConvGen: how often the executable of a converter was replaced by another one (part of what it outputs)
+	ConvGen map[string]int
 	// Listeners: closers of event streams the client program opened and does not read
 	Listeners map[string]func()
 	// Wedged: an API call did not return; nothing that waits for the service loop is done with this instance any more
